@@ -19,10 +19,12 @@ func init() {
 func runC18(r *engine.Run) {
 	r.Rule("ARITH", "every integer + - * / % , every numeric conversion and every call with a panicking precondition (decimal.NewFromFloat) in the hand-written functions of core/currency is discharged by an accepted guard idiom holding on every feasible path (wrap check on an operand, subtrahend<=minuend, post-division check of a product with a non-zero factor, non-zero divisor, sign / NaN / 2^64 rejection before float->uint64, NaN and Inf rejection before NewFromFloat); an instruction with no accepted guard is reported, an unknown operator form is undecided")
 	r.Rule("AGREE-op", "each named helper computes its result with the operator its name promises, on its parameters in order (AddCoin c+b, MinusCoin c-b, MultCoin c*b, DistributeCoin c/d and c%d, the Int64/Float64 variants delegate to them after conversion)")
+	r.Rule("ARG-finite", "every helper taking a float64 reports success (nil error) only by returning the result of another float helper applied to a value computed from that argument, or on paths where math.IsNaN(argument) tested false and the argument is bounded from above (IsInf false or a comparison with a constant): no shortcut returns an amount for NaN or +Inf")
 	r.NotDec = append(r.NotDec, "decimal-exponent semantics of ParseZCN/ToZCN (library arithmetic)", "format-then-parse round trip")
 	r.Assume = append(r.Assume, "Coin(e.IntPart()) in ParseZCN: range established through the decimal API (Sign()==-1 and GreaterThan(maxDecimal) rejections must hold on every path), not through integer guards")
 	arith(r)
 	agreeOp(r)
+	argFinite(r, "ARG-finite")
 }
 
 func isGenFile(r *engine.Run, pos token.Pos) bool {
@@ -627,4 +629,104 @@ func agreeOp(r *engine.Run) {
 		r.Check(good, rule, fn(f), r.P.Pos(f.Pos()), "delegates to "+d.to+"(c, "+d.conv+"(a))", "the signed variant does not delegate to "+d.to+" with its converted argument in order")
 	}
 	r.Min(rule, 6)
+}
+
+// argFinite: a helper that takes a float64 never reports success without having
+// looked at whether that argument is a number: every return with a nil error is
+// either the result of another such helper applied to a value computed from the
+// argument (NaN and infinities propagate through the arithmetic), or is reached
+// only on paths where math.IsNaN(arg) tested false and the argument was bounded
+// from above (math.IsInf false, or a comparison with a constant).
+func argFinite(r *engine.Run, rule string) {
+	n := 0
+	var floatFuncs []*ssa.Function
+	isFloatParam := func(p *ssa.Parameter) bool {
+		b, ok := p.Type().Underlying().(*types.Basic)
+		return ok && b.Kind() == types.Float64
+	}
+	for _, f := range funcsOfPkg(r, pkgCur) {
+		if f.Parent() != nil || isGenFile(r, f.Pos()) || len(f.Blocks) == 0 {
+			continue
+		}
+		for _, p := range f.Params {
+			if isFloatParam(p) {
+				floatFuncs = append(floatFuncs, f)
+				break
+			}
+		}
+	}
+	isFloatFunc := func(g *ssa.Function) bool {
+		for _, x := range floatFuncs {
+			if x == g {
+				return true
+			}
+		}
+		return false
+	}
+	for _, f := range floatFuncs {
+		res := f.Signature.Results()
+		if res.Len() == 0 || res.At(res.Len()-1).Type().String() != "error" {
+			continue
+		}
+		for _, p := range f.Params {
+			if !isFloatParam(p) {
+				continue
+			}
+			o := ord{}
+			for _, ret := range engine.Returns(f) {
+				ev := resultValue(ret, len(ret.Results)-1)
+				why := ""
+				if !nilConst(ev) {
+					// delegation, or an error return
+					if ex, ok := ev.(*ssa.Extract); ok {
+						if c, ok := ex.Tuple.(*ssa.Call); ok && c.Call.StaticCallee() != nil && isFloatFunc(c.Call.StaticCallee()) {
+							dep := false
+							for _, a := range c.Call.Args {
+								if dependsOn(a, p) {
+									dep = true
+								}
+							}
+							n++
+							r.Check(dep, rule, o.next(fn(f)+"|"+p.Name()+"|delegates"), r.P.Pos(ret.Pos()), "returns the result of "+fn(c.Call.StaticCallee())+" applied to a value computed from the argument",
+								"the result comes from a float helper that is not given a value computed from this argument")
+						}
+					}
+					continue
+				}
+				n++
+				facts, ok := engine.FactsOn(f, ret.Block())
+				nanTested, bounded := false, false
+				if ok {
+					for _, ft := range facts {
+						switch ft.Kind {
+						case "bool":
+							if c, isCall := ft.A.(*ssa.Call); isCall && !ft.Truth && len(c.Call.Args) > 0 && c.Call.Args[0] == ssa.Value(p) {
+								if extCalleeIs(c, "math", "", "IsNaN") {
+									nanTested = true
+								}
+								if extCalleeIs(c, "math", "", "IsInf") {
+									bounded = true
+								}
+							}
+						case "lt", "le":
+							_, aConst := ft.A.(*ssa.Const)
+							_, bConst := ft.B.(*ssa.Const)
+							if ft.B == ssa.Value(p) && aConst && !ft.Truth { // !(K < p) / !(K <= p)
+								bounded = true
+							}
+							if ft.A == ssa.Value(p) && bConst && ft.Truth { // p < K / p <= K
+								bounded = true
+							}
+						}
+					}
+				}
+				why = fmt.Sprintf("IsNaN tested false: %v, bounded from above: %v", nanTested, bounded)
+				r.Check(nanTested && bounded, rule, o.next(fn(f)+"|"+p.Name()+"|success"), r.P.Pos(ret.Pos()), "success is reached only after the argument tested a number and bounded from above",
+					"the helper reports success on a path that never established that its float argument is a number within range ("+why+"): NaN or +Inf yields an amount with a nil error")
+			}
+		}
+	}
+	if n < 3 {
+		r.Anchor(rule, fmt.Errorf("unresolved anchor: %d returns of float-taking helpers found", n))
+	}
 }
